@@ -6,6 +6,8 @@ requests (one per line)                                   reply
   reset <raising 0|1>                                      <outcome> | <dump>
   ins <spec> <index|N> <viaStr 0|1>
   insord <spec> <index> <viaStr>                          insertRule(rule, index, inOrder=True)
+  insl <n> <spec,...|-> <index|N>                         insertRule(CSSRuleList, index)
+  ninsl <path> <n> <spec,...|-> <index|N>
   add <spec> <viaStr>
   del <int>
   enc <cps> <valid 0|1>
@@ -176,6 +178,12 @@ def decOp (ws : List String) : Option Op :=
   | ["text", n, s] => match n.toNat? with
     | some n => (decSpecs n s).map .setText
     | none => none
+  | ["insl", n, s, i] => match n.toNat?, decIdx i with
+    | some n, some i => (decSpecs n s).map (fun l => .insertList l i)
+    | _, _ => none
+  | ["ninsl", p, n, s, i] => match decPath p, n.toNat?, decIdx i with
+    | some p, some n, some i => (decSpecs n s).map (fun l => .nInsertList p l i)
+    | _, _, _ => none
   | ["nsset", p, u] => match decCps p, decCps u with
     | some p, some u => some (.nsSet p u)
     | _, _ => none
